@@ -356,7 +356,9 @@ def r11_constant_numeric_table(ctx, R='C05.R11'):
   cases = [('FULLY_CONNECTED', (3, 4), None, 0), ('DEPTHWISE_CONV_2D', (1, 2, 2, 3), None, 3), ('CONV_2D', (2, 2, 1, 2), None, 0),
            ('BATCH_MATMUL', (2, 3, 2), False, 2), ('BATCH_MATMUL', (2, 3, 2), True, 1), ('EMBEDDING_LOOKUP', (4, 3), None, 0)]
   rs.exhaustive = True
-  for (op, shape, adj, dim), gran, bits in itertools.product(cases, ('CHANNELWISE', 'TENSORWISE'), (8, 4)):
+  # (block size 2 on a per-channel / per-tensor configuration: the field only means something for BLOCKWISE granularity)
+  for ((op, shape, adj, dim), gran, bits), blk in [(row, 0) for row in itertools.product(cases, ('CHANNELWISE', 'TENSORWISE'), (8, 4))] + \
+      [(row, 2) for row in itertools.product(cases[:1], ('CHANNELWISE', 'TENSORWISE'), (8,))]:
     if op not in OPN:
       continue
     n = 1
@@ -364,13 +366,13 @@ def r11_constant_numeric_table(ctx, R='C05.R11'):
       n *= s_
     vals = [(((k * 7 + 3) % n) - n // 2) * (1 + (k % 3)) for k in range(n)]   # distinct magnitudes per channel
     arr = NdArr(shape, vals)
-    wcfg = tables.tensor_config(ctx, num_bits=bits, granularity=G[gran])
+    wcfg = tables.tensor_config(ctx, num_bits=bits, granularity=G[gran], block_size=blk)
     cfg = tables.construct(ctx, common.OPCFG, weight_tensor_config=wcfg, compute_precision=CP['INTEGER'])
     op_obj = Obj('x:OperatorT', {'inputs': [0, 1], 'outputs': [2], 'builtinOptions': Obj('x:BatchMatMulOptionsT', {'adjX': False, 'adjY': bool(adj)})})
     op_info = Obj('qtyping:OpInfo', {'op': op_obj, 'op_name': OPN[op], 'subgraph_op_index': 0, 'op_quant_config': cfg})
     it = absint.Interp(ctx.repo, ctx.ev, hooks={'tfl_flatbuffer_utils.get_tensor_data': lambda a, k, arr=arr: arr, 'np.issubdtype': lambda a, k: True})
     tensor = Obj('x:TensorT', {'name': b'w', 'shape': list(shape), 'buffer': 1})
-    label = f'{op}{" adj_y" if adj else ""} weights {shape}, {gran}, {bits}-bit'
+    label = f'{op}{" adj_y" if adj else ""} weights {shape}, {gran}, {bits}-bit' + (f', block_size={blk} (ignored outside BLOCKWISE)' if blk else '')
     o1 = it.outcomes(init, [tensor, Obj('qtyping:GraphInfo', {'subgraph_tensors': [tensor], 'buffers': []}), op_info], copy_args=False)
     if len(o1) != 1 or o1[0].kind != 'return' or not isinstance(o1[0].value, dict):
       ctx.check(R, False, init.node, init, label, f'statistics not decided: {[o.short()[:100] for o in o1]}')
